@@ -11,7 +11,9 @@ CHECKS = {
           'mutator that changes a value source reaches RSModel::ResetDependants before a success exit (before the edge-destroying call for erasure), '
           'resets the target\'s own value and flag, the reset walks the transitive outputs and skips only base sets, reset helpers clear every '
           'per-constituent container, RecalculateAll clears first and iterates topologically. Holds for all histories because it holds for all paths of the code.',
-  'note': 'Does not decide that recalculated values are equal to fresh ones (value-level). Trusts clang 14 AST/CFG, the call resolution of the extractor and the exemption table in rules/C11.py (insert/load paths).',
+  'note': 'Does not decide that recalculated values are equal to fresh ones (value-level). Trusts clang 14 AST/CFG and the call resolution of the extractor. As built after the audits: r1 treats insertions, renaming and renumbering as value sources '
+          '(no insert/load exemption left), r10 PRUNE-AGAINST-NEW-TYPES (erasure prunes after the typings changed), r11 STRUCTURE-GUARD (E()/T()/B() only under a test of that object\'s structure), '
+          'r12 VALUES-TOTAL (the values facet reads an optional only under has_value(): validation of stored data never throws out of the middle of an invalidation). Five audit findings repaired.',
  },
  'C20': {
   'technique': 'AST summarisation + exhaustive evaluation over order types (finite quotient domain) and the 256-value lead-byte table; structural sibling rule for the iterator',
